@@ -85,9 +85,21 @@ class VSym:
                 return Val(lean_ident(name), "table")
             if isinstance(node, ast.Name) and self.module_dict(name) is not None:
                 return Val(name, "moddict", items=[(None, self.module_dict(name))])
+            f = self.function_value([(None, node)])
+            if f is not None:
+                return f
             raise Untranslatable(f"free name {name}")
         if isinstance(node, ast.Dict) and not node.keys:
             return Val("{}", "empty")
+        if isinstance(node, ast.IfExp):
+            c = self.expr(node.test, env, guards)
+            if c.ty == "static":
+                return self.expr(node.body if c.const else node.orelse, env, guards)
+            a = self.expr(node.body, env, guards)
+            b = self.expr(node.orelse, env, guards)
+            if c.ty == "prop" and a.ty == b.ty and a.ty in ("n", "v", "b"):
+                return Val(f"(if {c.text} then {a.text} else {b.text})", a.ty)
+            raise Untranslatable("conditional expression")
         if isinstance(node, ast.Tuple):
             return Val("", "tuple", items=[self.expr(e, env, guards) for e in node.elts])
         if isinstance(node, ast.UnaryOp):
@@ -189,29 +201,60 @@ class VSym:
                 guards.append("(¬ (" + " ∨ ".join(tests) + "))")       # KeyError
             else:
                 raise Untranslatable(f"dict key of type {key.ty}")
-        if all(isinstance(v, ast.Lambda) for _, v in out) and out:
-            alts = out
-
-            def apply(arg, alts=alts):
-                texts = []
-                ty = None
-                for cond, lam in alts:
-                    names = [a.arg for a in lam.args.args]
-                    if len(names) != 1:
-                        raise Untranslatable("lambda arity")
-                    r = self.expr(lam.body, {names[0]: arg}, [])
-                    if ty is not None and r.ty != ty:
-                        raise Untranslatable("lambdas of different type")
-                    ty = r.ty
-                    texts.append((cond, r.text))
-                text = arg.text if ty == arg.ty else None
-                if text is None:
-                    raise Untranslatable("lambda result type")
-                for cond, t in reversed(texts):
-                    text = t if cond is None else f"(if {cond} then {t} else {text})"
-                return Val(text, ty)
-            return Val("<fn>", "fn", fn=apply)
+        if out:
+            f = self.function_value(out)
+            if f is not None:
+                return f
+            if all(isinstance(v, ast.Tuple) for _, v in out) and len({len(v.elts) for _, v in out}) == 1:
+                items = [self.function_value([(c, v.elts[i]) for c, v in out]) for i in range(len(out[0][1].elts))]
+                if all(i is not None for i in items):
+                    return Val("", "tuple", items=items)
         return Val(base.text, "moddict", items=out)
+
+    def unary_function(self, node):
+        """a Python-level function of one argument given by `node` (a lambda, the name of a one-line module function, np.log/exp/sqrt):
+        returns a callable Val -> Val, or None"""
+        if isinstance(node, ast.Lambda):
+            names = [a.arg for a in node.args.args]
+            if len(names) != 1:
+                return None
+            return lambda arg: self.expr(node.body, {names[0]: arg}, [])
+        d = dotted(node)
+        if d is None:
+            return None
+        if d.startswith(("np.", "numpy.")) and d.split(".")[-1] in NP_MAP:
+            call = ast.Call(func=node, args=[ast.Name(id="__arg__", ctx=ast.Load())], keywords=[])
+            return lambda arg: self.call(call, {"__arg__": arg}, [])
+        if isinstance(node, ast.Name):
+            fn = self.module_function(d)
+            if fn is not None and len(fn.args.args) == 1 and not fn.args.defaults:
+                body = [st for st in fn.body if not (isinstance(st, ast.Expr) and isinstance(st.value, ast.Constant))]
+                if len(body) == 1 and isinstance(body[0], ast.Return) and body[0].value is not None:
+                    return lambda arg: self.expr(body[0].value, {fn.args.args[0].arg: arg}, [])
+        return None
+
+    def function_value(self, alts):
+        """alternatives [(condition text or None, ast node)] that all denote one-argument functions: a `fn` value selecting among them"""
+        fs = [(cond, self.unary_function(node)) for cond, node in alts]
+        if not fs or any(f is None for _, f in fs):
+            return None
+
+        def apply(arg, fs=fs):
+            texts = []
+            ty = None
+            for cond, f in fs:
+                r = f(arg)
+                if ty is not None and r.ty != ty:
+                    raise Untranslatable("functions of different result type")
+                ty = r.ty
+                texts.append((cond, r.text))
+            if ty != arg.ty:
+                raise Untranslatable("function result type")
+            text = arg.text
+            for cond, t in reversed(texts):
+                text = t if cond is None else f"(if {cond} then {t} else {text})"
+            return Val(text, ty)
+        return Val("<fn>", "fn", fn=apply)
 
     def call(self, node, env, guards):
         fn = dotted(node.func)
